@@ -12,6 +12,9 @@ CHECKS = {
  "C07": dict(cat="exploration", ref="6/C07", tech="post-condition monitor on every successful convert(): reference BASIC09 statement parser + block-structure validator + leak scan; counterfactual (de-hazarded) re-run for diagnosis",
    text="every accepted program of a grammar-directed workload over all statement kinds, all examples and ten option sets is parsed by an independent BASIC09 parser; a failure is a violation unless the de-hazarded variant of the same program parses, in which case it is attributed to the listed known mechanism",
    note="trusted base: vlib/b09ref/parser.py (DESIGN.md Appendix E), deliberately tolerant where real BASIC09 behaviour is uncertain"),
+ "C15": dict(cat="exploration", ref="6/C15", tech="exception-class and CPU-time monitor at the boundary of convert() and decb_to_b09.start() under grammar-directed mutational workloads",
+   text="every outcome of the real entry points is classified as converted / documented refusal / internal exception (root cause unwrapped from parsimonious VisitationError) and timed (process CPU); inputs are mutated generated programs, extreme literals, deep nesting, bad option values and command lines with legal file stems",
+   note="documented refusal classes are listed in the evidence assumptions; hang = more than 20 s CPU for one input"),
 }
 
 def main():
